@@ -102,7 +102,7 @@ class HandoverClient(object):
                 list(ndef.message_decoder(octets, 'strict', {}))
                 log.debug("<<< %s", binascii.hexlify(octets).decode())
                 return bytes(octets)
-            except ndef.DecodeError:
+            except (ndef.DecodeError, ValueError):
                 log.debug("message is incomplete (%d byte)", len(octets))
                 if timeout:
                     timeout -= time.time() - started
